@@ -46,6 +46,7 @@ type Violation struct {
 	Trace   string
 	Kind    string // "assert", "panic"
 	Msg     string
+	Sched   *SchedInfo // first preemption of the parallel section, if any
 }
 
 // ReplayVal is one nondet value for the native replay vector.
@@ -290,6 +291,7 @@ func (ex *Explorer) worker() {
 
 // pathRun is the per-path state hanging off the interpreter.
 type pathRun struct {
+	sched     *SchedInfo // first preemption of the last parallel section
 	ex        *Explorer
 	solver    *Solver
 	prefix    []dec
@@ -826,7 +828,7 @@ func (p *pathRun) buildViolationFrom(solver *Solver, label, kind, msg string) *V
 	}
 	m, err := solver.Model(vars)
 	v := &Violation{Harness: p.ex.Harness, Label: label, Kind: kind, Msg: msg,
-		Choices: append([]string(nil), p.choices...), Trace: traceString(p.trace, p.kinds)}
+		Choices: append([]string(nil), p.choices...), Trace: traceString(p.trace, p.kinds), Sched: p.sched}
 	if err != nil {
 		v.Msg += " (model error: " + err.Error() + ")"
 	}
